@@ -375,6 +375,13 @@ def run(rec, shard, nshards, t):
         n = (300 if t == 'quick' else 40000) // nshards
         for i in range(n):
             rf = gen.rule_file(nrules=rnd.randint(1, 7))
+            if rf.rules and rnd.random() < .25:
+                # a let: name bound more than once (each later binding reads the earlier one): every line is a stated property, in order
+                r = rnd.choice(rf.rules)
+                r.lets = list(r.lets) + rnd.choice([[('d', 'description'), ('n', 'trim(d)'), ('D', 'uppercase(n)')],
+                                                    [('acc', 'amount'), ('acc', 'acc * 2'), ('Acc', 'acc + 1')],
+                                                    [('w', '"a"'), ('w', '"b"')]])
+                rec.count('files_with_rebound_let_names')
             judge_merchants(rec, rf, rnd, 12, 10)
             judge_views(rec, rnd, 8, 6)
             if i < 1 and shard == 0:
